@@ -587,7 +587,11 @@ class InterpBase:
                 cs = [c for c in cs if c is not False]
                 return z3.Or(*cs) if cs else False
             if isinstance(h, HSymList):
-                return z3.Contains(h.seq, z3.Unit(lower(item, ex)))
+                from .interp_data import cnt_f
+                t = lower(item, ex)
+                c = z3.Contains(h.seq, z3.Unit(t))
+                ex.assume(c == (cnt_f(t, h.seq) > 0))      # membership is "occurs at least once" (definition of cnt)
+                return c
             if isinstance(h, HObj):
                 d = h.attrs.get('__dictdata__')
                 if d is not None:
